@@ -504,15 +504,27 @@ impl DmlExecutor {
                 }
             }
 
+            // Rows with a NULL in an indexed column have no index entry: index keys cannot be
+            // NULL, NULLs never violate UNIQUE and never satisfy a predicate an index can serve.
+            let has_null_key = |values: &[DataType]| {
+                index
+                    .indexed_column_ids()
+                    .iter()
+                    .any(|col| values.get(*col).is_some_and(|v| v.is_null()))
+            };
+            let (old_values, new_values) = (
+                old_values.as_ref().filter(|v| !has_null_key(v)),
+                new_values.as_ref().filter(|v| !has_null_key(v)),
+            );
+            if old_values.is_none() && new_values.is_none() {
+                continue;
+            }
+
             let mut index_btree = self.ctx.build_tree_mut(index_root);
 
-            match (
-                old_values.as_ref(),
-                new_values.as_ref(),
-                table_assignments.as_ref(),
-            ) {
+            match (old_values, new_values, table_assignments.as_ref()) {
                 // Insert operation
-                (None, Some(values), None) => {
+                (None, Some(values), _) => {
                     let index_row = Self::build_index_entry(&values, index, index_schema, row_id)?;
                     let index_tuple =
                         TupleBuilder::from_schema(index_schema).build(&index_row, tid)?;
@@ -535,7 +547,7 @@ impl DmlExecutor {
                 }
                 // New values was set to [None] which means we are on a delete operation. Then we need to perform the maintenance in a different way.
                 // Delete operation
-                (Some(values), None, None) => {
+                (Some(values), None, _) => {
                     let index_row = Self::build_index_entry(&values, index, index_schema, row_id)?;
                     let index_tuple =
                         TupleBuilder::from_schema(index_schema).build(&index_row, tid)?;
